@@ -316,6 +316,22 @@ func c13(ctx *Ctx) (*Outcome, error) {
 			})
 			if ok {
 				root = lib
+				if i%10 == 9 {
+					// ... plus a title and ONE keyword that only objects have - no `type`, no `properties`: whatever is made of
+					// such a root, it is made of both spellings of the keyword
+					root.Title = "Typeless Library"
+					switch (i / 10) % 4 {
+					case 0:
+						root.Extra = append(root.Extra, dep())
+					case 1:
+						root.Extra = append(root.Extra, dep(), jsonx.KV{K: "minProperties", V: jsonx.N(1)})
+					case 2:
+						root.Required = []string{"k"}
+						root.Extra = append(root.Extra, dep())
+					default:
+						root.Extra = append(root.Extra, jsonx.KV{K: "dependentSchemas", V: jsonx.Obj{{K: "k", V: true}}})
+					}
+				}
 			}
 		}
 		var lib *sg.Schema
